@@ -342,7 +342,8 @@ extern "C" void __sanitizer_set_death_callback(void (*)(void)) __attribute__((we
 namespace vf {
 inline void death_cb() { Current::dump("process died: sanitizer report (see log)"); }
 inline void abort_handler(int sig) {
-  Current::dump(sig == 6 ? "process died: abort()/failed assert" : "process died: fatal signal");
+  Current::dump(sig == SIGABRT ? "process died: abort()/failed assert"
+               : sig == SIGALRM ? "timeout: the operation did not terminate within the alarm limit" : "process died: fatal signal");
   signal(sig, SIG_DFL);
   raise(sig);
 }
@@ -352,6 +353,7 @@ inline void install_death_hooks(const Args& a, const std::string& prop) {
   Current::prop() = prop;
   if (__sanitizer_set_death_callback) __sanitizer_set_death_callback(death_cb);
   signal(SIGABRT, abort_handler);
+  signal(SIGALRM, abort_handler);
 }
 
 using RunFn = std::function<void(const Args&, Evidence&, Reporter&)>;
